@@ -65,13 +65,18 @@ theorem coincide : ∀ t : XTy, plain t = true → xwf t = true → Same t
         (h2 .metal).2, h4]
   | .struct ms, hp, hw => by
     simp only [plain] at hp
-    simp only [xwf, Bool.and_eq_true] at hw
-    obtain ⟨h1, h2, h3, h4, h5⟩ := coincideAll ms hp hw.2
+    simp only [xwf] at hw
+    obtain ⟨h1, h2, h3, h4, h5⟩ := coincideAll ms hp hw
     cases ms with
-    | nil => simp at hw
+    | nil =>
+      refine ⟨rfl, fun m => ?_, fun m b => rfl, rfl⟩
+      cases m <;> exact ⟨rfl, rfl⟩
     | cons t ts =>
       refine ⟨by simpa [erase, wf, eraseAll] using h1, fun m => ?_, fun m b => ?_, ?_⟩
-      · simp only [xsize, xalign, erase, size, align, h2 m, (h3 m 0).1, and_self]
+      · simp only [xsize, xalign, erase, eraseAll, size, align]
+        simp only [eraseAll] at h2 h3
+        rw [h2 m, (h3 m 0).1]
+        exact ⟨rfl, rfl⟩
       · simp only [xfieldsAt, erase, fieldsAt, h4]
       · simp only [xagreeIn, erase, agreeIn, (h3 .hlsl 0).2, (h3 .metal 0).2, h5]
 theorem coincideAll : ∀ ts : XTys, plainAll ts = true → xwfAll ts = true → SameAll ts
